@@ -43,37 +43,50 @@ def _ty(s, prefix):
     return fix(t)
 
 
-def make_function(i, shape, name, prefix, local_types):
-    """shape = {ret: void|oneway|scalar|struct|container, na: 0..3, nt: 0..2}; i = running number (drives the
-    rotation through type and name pools so that the whole universe uses every type and every awkward name)."""
-    allt = SCALARS + STRUCTS + CONTAINERS + (local_types or [])
+class Rot:
+    """rotation state: every pool is walked round-robin over the whole universe"""
+
+    def __init__(self):
+        self.n = {}
+
+    def next(self, key, pool):
+        i = self.n.get(key, 0)
+        self.n[key] = i + 1
+        return pool[i % len(pool)]
+
+
+def make_function(i, shape, name, prefix, local_types, rot):
+    """shape = {ret: void|oneway|scalar|struct|container, na: 0..3, nt: 0..2}; i = running number; rot drives the
+    rotation through type and name pools so that the whole universe uses every type and every awkward name."""
+    loc = local_types or []
+    tag = "L" if loc else "I"       # services of the main file may also use its local types
+    allt = SCALARS + STRUCTS + CONTAINERS + loc
     kind = shape["ret"]
     ret = None
     if kind == "scalar":
-        ret = _ty(SCALARS[i % len(SCALARS)], prefix)
+        ret = _ty(rot.next("scalar", SCALARS), prefix)
     elif kind == "struct":
-        pool = STRUCTS + (local_types or [])
-        ret = _ty(pool[i % len(pool)], prefix)
+        ret = _ty(rot.next("struct" + tag, STRUCTS + loc), prefix)
     elif kind == "container":
-        ret = _ty(CONTAINERS[i % len(CONTAINERS)], prefix)
+        ret = _ty(rot.next("container", CONTAINERS), prefix)
     ids = [1, 2, 3] if i % 4 else [2, 5, 9]
     args = []
     used = set()
     for j in range(shape["na"]):
-        nm = AWKWARD_ARGS[(3 * i + j) % len(AWKWARD_ARGS)]
+        nm = rot.next("argname", AWKWARD_ARGS)
         while nm in used:
             nm += "x"
         used.add(nm)
-        args.append(F(ids[j], "default", _ty(allt[(5 * i + 7 * j) % len(allt)], prefix), nm))
+        args.append(F(ids[j], "default", _ty(rot.next("arg" + tag, allt), prefix), nm))
     throws = None
     if shape["nt"] > 0:
         excs = [prefix + "X1", "X2"] if local_types is not None else [prefix + "X1", prefix + "X1b"]
-        if i % 2:
+        if rot.next("excorder", [0, 1, 1, 0, 1]):
             excs.reverse()
         tids = [1, 2] if i % 3 else [3, 7]
         throws = []
         for j in range(shape["nt"]):
-            nm = AWKWARD_THROWS[(i + 4 * j) % len(AWKWARD_THROWS)]
+            nm = rot.next("thrname", AWKWARD_THROWS)
             while nm in used:
                 nm += "x"
             used.add(nm)
@@ -104,6 +117,7 @@ def main_program(shapes):
         else:
             part["Svc"].append((i, sh))
     awk = iter(AWKWARD_METHODS)
+    rot = Rot()
 
     def fns(svc, prefix, local_types, awkward):
         out = []
@@ -113,7 +127,7 @@ def main_program(shapes):
                 nm = next(awk, None)
             if nm is None:
                 nm = "%s_m%d" % (svc.lower(), i)
-            out.append(make_function(i, sh, nm, prefix, local_types))
+            out.append(make_function(i, sh, nm, prefix, local_types, rot))
         return out
     c_defs = [
         {"k": "enum", "name": "E", "values": [{"name": "A", "value": 1}, {"name": "B", "value": None},
